@@ -47,6 +47,13 @@ pub enum Attack {
     /// claimed vector differs at `count` positions chosen from the tail, the
     /// head or anywhere
     ClaimedInputs { region: u8, count: u8, with: Fe },
+    /// the prover computes everything (quotient, linearisation, evaluations,
+    /// opening witnesses) with one of the four OPENED selector polynomials
+    /// (q_arith, q_c, q_l, q_r) replaced by zero: its claimed evaluation is 0
+    /// and is consistent with everything in the proof except the circuit's own
+    /// selector commitment. With q_arith gone no arithmetic row binds anything,
+    /// so an arbitrary assignment and all-zero public inputs are "proved".
+    ZeroSelector { which: u8, edits: Vec<(u16, Fe)> },
 }
 
 #[derive(Debug, Clone, Serialize, Deserialize)]
@@ -74,6 +81,7 @@ fn case_strategy(_t: Tier) -> BoxedStrategy<Case> {
         1 => Just(Attack::Degenerate),
         2 => (0u8..2, prop_oneof![Just(Fe(F::one())), fe_random()], proptest::option::of(edits()))
             .prop_map(|(early, shift, edits)| Attack::LateBoundOpenings { early, shift, edits }),
+        3 => (prop_oneof![3 => Just(0u8), 1 => 1u8..4], edits()).prop_map(|(which, edits)| Attack::ZeroSelector { which, edits }),
         4 => (prop_oneof![1 => 0u8..3, 2 => 3u8..5], prop_oneof![3 => 1u8..4, 1 => 1u8..18], fe_random()).prop_map(|(region, count, with)| Attack::ClaimedInputs { region, count, with }),
     ];
     // a fifth of the circuits carry a long run of public inputs
@@ -391,6 +399,45 @@ fn check(ctx: &Ctx, c: &Case) -> PResult {
             );
             c03::compare(ctx, &cls, &verifier, &rv, &out.proof.to_bytes(), &claimed, v3, Some(false))?;
         }
+        Attack::ZeroSelector { which, edits } => {
+            if n > 64 {
+                ctx.excluded("circuit too large for the reference prover");
+                return Ok(());
+            }
+            let srs = refprover::srs_for(cap, &pp, n + 7);
+            let mut keys = refprover::ref_keys(&layout, b"c02", &srs).ok_or_else(|| Fail::new("refprover-commit", "key"))?;
+            let k = [spec::Q_ARITH, spec::Q_C, spec::Q_L, spec::Q_R][(*which % 4) as usize];
+            if keys.q[k].iter().all(|c| *c == F::zero()) {
+                ctx.excluded("selector is the zero polynomial anyway");
+                return Ok(());
+            }
+            // the prover's own copy of the selector is zero; the verifier data
+            // (commitments in keys.rv) are the circuit's
+            keys.q[k] = Vec::new();
+            let (_, w) = assignment(edits);
+            // all-zero public inputs are what the identity without q_arith demands
+            let zero_pi: Vec<(usize, F)> = snap.public_inputs.iter().map(|(r, _)| (*r, F::zero())).collect();
+            let claimed: Vec<F> = zero_pi.iter().map(|p| p.1).collect();
+            let bl = crate::fe::f_stream(c.seed, 14);
+            let mut b14 = [F::zero(); 14];
+            b14.copy_from_slice(&bl);
+            let dev = Deviation { drop_remainder: true, ..Default::default() };
+            let out = match refprover::prove(&keys, &layout, &srs, &w, &zero_pi, &b14, Version::V3, &dev) {
+                Ok(o) => o,
+                Err(e) => {
+                    ctx.label(&format!("reference prover stopped: {e}"));
+                    return Ok(());
+                }
+            };
+            let cls = format!(
+                "malicious prover: own copy of {} is the zero polynomial ({})",
+                ["q_arith", "q_c", "q_l", "q_r"][(*which % 4) as usize],
+                if out.divisible { "quotient exact" } else { "remainder dropped" }
+            );
+            for v in [PlonkVersion::V3, PlonkVersion::V2] {
+                c03::compare(ctx, &cls, &verifier, &rv, &out.proof.to_bytes(), &claimed, v, Some(false))?;
+            }
+        }
         Attack::Degenerate => {
             let (p1, pi) = sys::prove(&prover, &program, c.seed).map_err(|e| Fail::new("prove-error", format!("{e:?}")))?;
             let honest = p1.to_bytes().to_vec();
@@ -429,6 +476,6 @@ pub fn props() -> Vec<(Box<dyn PropDyn>, u32, u32)> {
 }
 
 pub fn describe(ctx: &Ctx) {
-    ctx.rule("adversarial proofs for generated circuits: (1) the real proving algorithm forced past its unsatisfied-circuit check (remainder dropped) on assignments the reference evaluator classifies as violating (witness overrides; one broken component of a raw row of each custom gate family), offered under V3/V2/V1 and with altered public inputs; (2) an independent malicious prover (harness/src/refprover.rs) with deviations {remainder dropped; arbitrary grand product and/or quotient with one of the 15 evaluations solved after the challenge so that the linearisation identity holds - the generalised unbound-evaluation attack; one evaluation shifted}; (3) all 52 single-field and all-but-one-field splices of two valid proofs; (4) degenerate proofs; (5) the two opening commitments of an honest or forced proof shifted as a cancelling pair computed from a folding challenge u learnt before the pair is absorbed (u is the one challenge the prover never computes, so only this attack distinguishes a verifier that derives it too early); (6) a prover that proves one public-input vector and hashes another (the claimed statement) into the transcript, the vectors differing in 1..17 entries at the tail / head / spread, on circuits with up to 130 public inputs. Oracle: verify returns Err for every version without panicking and the reference verifier rejects too. non-trivial = the adversarial proof decodes and reaches the equation; distinct by hash of (proof bytes, label, version, public inputs)");
+    ctx.rule("adversarial proofs for generated circuits: (1) the real proving algorithm forced past its unsatisfied-circuit check (remainder dropped) on assignments the reference evaluator classifies as violating (witness overrides; one broken component of a raw row of each custom gate family), offered under V3/V2/V1 and with altered public inputs; (2) an independent malicious prover (harness/src/refprover.rs) with deviations {remainder dropped; arbitrary grand product and/or quotient with one of the 15 evaluations solved after the challenge so that the linearisation identity holds - the generalised unbound-evaluation attack; one evaluation shifted}; (3) all 52 single-field and all-but-one-field splices of two valid proofs; (4) degenerate proofs; (5) the two opening commitments of an honest or forced proof shifted as a cancelling pair computed from a folding challenge u learnt before the pair is absorbed (u is the one challenge the prover never computes, so only this attack distinguishes a verifier that derives it too early); (6) a prover that proves one public-input vector and hashes another (the claimed statement) into the transcript, the vectors differing in 1..17 entries at the tail / head / spread, on circuits with up to 130 public inputs; (7) a prover whose own copy of one opened selector polynomial (q_arith, q_c, q_l, q_r) is zero, so that its claimed evaluation 0 is consistent with everything in the proof but the circuit's selector commitment. Oracle: verify returns Err for every version without panicking and the reference verifier rejects too. non-trivial = the adversarial proof decodes and reaches the equation; distinct by hash of (proof bytes, label, version, public inputs)");
     ctx.assume("soundness against ALL prover strategies is not decided by exploration; only the listed strategies are covered (DESIGN.md section 8)");
 }
